@@ -13,8 +13,8 @@ from vlib.common import Res, derive_seed, rng_of, EPS
 
 PROPERTY = "C03"
 LEVEL = "exploration"
-RULE = ("classes: mesh (jittered-Delaunay triangulation +/- hole, graded, rotated / anisotropic (aspect <= 30) / sheared placement, size scale "
-        "1e-3..1e3, random cyclic rotation of connectivity rows, shuffled elements, two random blocks; elevated by the library to order 1..5 with/without "
+RULE = ("classes: mesh (jittered-Delaunay triangulation +/- hole, graded, rotated / anisotropic (aspect <= 30) / sheared placement, then x -> s*x + b with s over "
+        "1e-8..1e8 (generic and power-of-two) and offsets |b| up to 1e7 element heights, random cyclic rotation of connectivity rows, shuffled elements, two random blocks; elevated by the library to order 1..5 with/without "
         "bubble, or built directly by the harness from the reference node coordinates; on each: 2-D rules of several degrees from 1..10, Cartesian and axisymmetric, the full monomial basis x^i y^j up to the relevant "
         "degree, and the divergence theorem over the independently extracted closed boundary (outer loop and hole) with 1-D rules of degree 0..25); "
         "ref2d (reference triangle: every order +/- bubble at the points of every rule, the element nodes and random interior points; every 2-D rule "
@@ -42,6 +42,8 @@ REQUIRED = {
         "divergence_checks": 200, "divergence_with_hole": 10, "divergence_field_u": 50, "divergence_field_u_coupled_rows": 50, "surface_module_checks": 10,
         "mesh_order1": 2, "mesh_order2": 2, "mesh_order3": 2, "mesh_order4": 2, "mesh_order5": 2, "mesh_bubble": 4,
         "mesh_elevated_by_library": 4, "mesh_elevated_by_harness": 10,
+        "scale_band_tiny": 6, "scale_band_small": 3, "scale_band_unit": 6, "scale_band_big": 3, "scale_band_large": 6,
+        "offset_over_h_ge_1e4": 6, "offset_over_h_ge_1e6": 2, "meshes_with_element_area_below_5e-11": 6,
         "quad2d_degree_1": 1, "quad2d_degree_2": 1, "quad2d_degree_3": 1, "quad2d_degree_4": 1, "quad2d_degree_5": 1, "quad2d_degree_6": 1,
         "quad2d_degree_7": 1, "quad2d_degree_8": 1, "quad2d_degree_9": 1, "quad2d_degree_10": 1,
         "rule1d_degrees_checked": 26, "rule1d_padded_degrees_checked": 10, "ref2d_rule_monomials": 200,
@@ -223,10 +225,34 @@ def _mesh_spec(rng, i, tier="quick"):
     sizes = [(3, 3), (4, 4), (3, 4), (4, 5), (5, 5), (4, 3), (5, 4)] + ([(6, 6), (7, 5), (3, 8)] if tier == "thorough" else [])
     nx, ny = sizes[int(rng.integers(0, len(sizes)))]
     spec = {"nx": nx, "ny": ny, "hole": (i % 4 == 1), "graded": (i % 5 == 3),
-            "affine_kind": [None, "rot", "aniso", "shear"][(i // 2) % 4], "scale_exp": int(rng.integers(-3, 4)) if i % 3 == 0 else 0,
+            "affine_kind": [None, "rot", "aniso", "shear"][(i // 2) % 4],
             "xshift": float(rng.uniform(0.0, 3.0)) if i % 2 == 0 else None}
     if spec["hole"]:
         spec["nx"] = spec["ny"] = 5
+    # absolute-scale sweep x -> s*x + b ("arbitrary ... sizes"): s over 1e-8..1e8 (generic and power-of-two factors), offsets b with
+    # |b| = R*h_min, R up to 1e7 (h_min/|b| >= 1e-7 is what float64 still resolves), max |coordinate| kept <= 1e8 (x^25 must not overflow)
+    mode = i % 8
+    u = rng.uniform
+    if mode == 0:
+        scale, R = 1.0, 0.0
+    elif mode == 1:
+        scale, R = 10.0 ** u(-8, -5), 0.0
+    elif mode == 2:
+        scale, R = 10.0 ** u(5, 8), 0.0
+    elif mode == 3:
+        scale, R = (10.0 ** u(-5, -1) if (i // 8) % 2 == 0 else 10.0 ** u(1, 5)), 0.0
+    elif mode == 4:
+        k = int(rng.integers(17, 27))
+        scale, R = (2.0 ** -k if (i // 8) % 2 == 0 else 2.0 ** k), 0.0
+    elif mode == 5:
+        scale, R = 10.0 ** u(-8, -5), 10.0 ** u(2, 7)
+    elif mode == 6:
+        scale, R = 10.0 ** u(-0.5, 0.5), 10.0 ** u(4, 7)
+    else:
+        scale, R = (10.0 ** u(-5, -1) if (i // 8) % 2 == 0 else 10.0 ** u(1, 4)), 10.0 ** u(2, 6)
+    spec["scale"] = float(scale)
+    spec["offset_ratio"] = float(R)
+    spec["offset_angle"] = float(u(0, 2 * math.pi))
     return spec
 
 
@@ -238,7 +264,12 @@ def _build_mesh(rng, spec, order, bubble, elevation):
     pts, tri = meshes.random_simplex_data(rng, spec["nx"], spec["ny"], hole=spec["hole"], graded=spec["graded"], affine=aff)
     if spec["xshift"] is not None:
         pts = pts + onp.array([spec["xshift"] - pts[:, 0].min(), 0.0])       # r >= xshift >= 0: a proper axisymmetric domain
-    pts = pts * 10.0 ** spec["scale_exp"]
+    pts = pts * spec["scale"]
+    if spec["offset_ratio"] > 0:
+        from vlib.oracles import c03_exact
+        hmin = float(c03_exact.min_altitude(pts, tri).min())
+        bmag = min(spec["offset_ratio"] * hmin, 1e8 - float(onp.abs(pts).max()))
+        pts = pts + bmag * onp.array([math.cos(spec["offset_angle"]), math.sin(spec["offset_angle"])])
     nE = len(tri)
     lab = rng.integers(0, 2, size=nE)
     lab[0], lab[-1] = 0, 1
@@ -309,6 +340,16 @@ def run_mesh(case, res, rng):
     if nE >= 2 and (3 * nE - len(sides)) // 2 >= 1:
         res.nontrivial = True
     res.count("mesh_order%d" % p)
+    sc = spec["scale"]
+    band = "tiny" if sc < 1e-5 else "small" if sc < 0.1 else "unit" if sc <= 10 else "big" if sc <= 1e5 else "large"
+    res.count("scale_band_" + band)
+    offr = float(onp.abs(pts).max() / h_e.min())
+    if offr >= 1e4:
+        res.count("offset_over_h_ge_1e4")
+    if offr >= 1e6:
+        res.count("offset_over_h_ge_1e6")
+    if float(area_e.min()) < 5e-11:
+        res.count("meshes_with_element_area_below_5e-11")
     if bubble:
         res.count("mesh_bubble")
     if spec["hole"]:
